@@ -664,11 +664,39 @@ func cmdCheck(args []string) int {
 		for _, n := range baseline["_dead:"+*prop] {
 			known[n] = true
 		}
-		for _, d := range deadReturns {
-			if !known[d] && !*updateBaseline {
-				fmt.Println("NOTE: return path unreachable in the model (dead code, or contradictory assumptions):", d)
+		// A return path that is unreachable in the model satisfies its postconditions vacuously. The ones of the
+		// unchanged tree are recorded (error branches a callee's contract excludes); more of them in a function than
+		// recorded means the change added dead code - or contradicts an assumed contract, which would make everything
+		// behind it provable: reported like a failed obligation (by count per function: return ordinals shift).
+		perFn := func(names []string) map[string]int {
+			m := map[string]int{}
+			for _, n := range names {
+				if i := strings.Index(n, "#cover.ret"); i > 0 {
+					m[n[:i]]++
+				}
+			}
+			return m
+		}
+		knownN, nowN := perFn(baseline["_dead:"+*prop]), perFn(deadReturns)
+		if !*updateBaseline {
+			var fns []string
+			for fn := range nowN {
+				fns = append(fns, fn)
+			}
+			sort.Strings(fns)
+			for _, fn := range fns {
+				if nowN[fn] > knownN[fn] {
+					name := fn + "#cover.returns"
+					path := filepath.Join(verifDir, "replays", *prop, vc.SafeName(name)+".json")
+					os.MkdirAll(filepath.Dir(path), 0o755)
+					writeJSON(path, map[string]interface{}{"property": *prop, "obligation": name, "reason": "return path unreachable in the model", "dead_return_paths": deadReturns})
+					lines = append(lines, fmt.Sprintf("FAILED-OBLIGATION %s: %d return path(s) of the function are unreachable in the model, %d on the unchanged tree: their postconditions hold vacuously (dead code added, or the change contradicts an assumed contract)", name, nowN[fn], knownN[fn]))
+					lines = append(lines, fmt.Sprintf("VIOLATION property=%s replay=%s no-failing-input-found", *prop, path))
+					violations++
+				}
 			}
 		}
+		_ = known
 		if *updateBaseline {
 			sort.Strings(deadReturns)
 			baseline["_dead:"+*prop] = deadReturns
